@@ -62,17 +62,17 @@ def check(p, t):
     got = t["prob"]
     diff = np.abs(got - want)
     tol = TOL + slack
-    if (diff > tol).any():
-        si, ai, ei = [int(x[0]) for x in np.nonzero(diff > tol)]
+    if not (diff <= tol).all():     # NaN-safe: a non-finite probability is a difference
+        si, ai, ei = [int(x[0]) for x in np.nonzero(~(diff <= tol))]
         return (f"probability of event {t['events'][ei].tolist()} in state {t['states'][si].tolist()} under action {t['actions'][ai].tolist()} is {got[si, ai, ei]:.8f}, "
                 f"the documented distribution gives {want[si, ai, ei]:.8f} (tolerance {tol:.2e})")
     # initial values: zero, except Hendrix = expected one-step sales revenue under that distribution
     if kind == "hendrix":
         rev = np.array([P["sales_price_a"] * e[0] + P["sales_price_b"] * e[1] for e in t["events"].tolist()])
         want_iv = (got[:, 0, :] * rev).sum(axis=1)
-        if np.abs(t["init"] - want_iv).max() > 1e-6:
+        if not (np.abs(t["init"] - want_iv).max() <= 1e-6):
             return "Hendrix initial value is not the expected one-step sales revenue"
-    elif np.abs(t["init"]).max() != 0:
+    elif not (np.abs(t["init"]).max() == 0):
         return "initial value estimates are not zero"
     return None
 
